@@ -67,21 +67,21 @@ def _consts(e: ast.AST) -> Optional[FrozenSet[str]]:
     return None
 
 
-def implied(cond: ast.AST, truth: bool, fold=None) -> Dict[str, Constraint]:
+def implied(cond: ast.AST, truth: bool, fold=None, alias: Optional[Dict[str, str]] = None) -> Dict[str, Constraint]:
     """constraints that hold when `cond` evaluates to `truth`"""
     out: Dict[str, Constraint] = {}
     if isinstance(cond, ast.UnaryOp) and isinstance(cond.op, ast.Not):
-        return implied(cond.operand, not truth, fold)
+        return implied(cond.operand, not truth, fold, alias)
     if isinstance(cond, ast.BoolOp):
         conj = isinstance(cond.op, ast.And)
         if conj == truth:
             # every operand has the same truth value
             for v in cond.values:
-                for k, c in implied(v, truth, fold).items():
+                for k, c in implied(v, truth, fold, alias).items():
                     out[k] = _meet(out[k], c) if k in out else c
             return out
         # one of the operands: only what all of them imply
-        parts = [implied(v, truth, fold) for v in cond.values]
+        parts = [implied(v, truth, fold, alias) for v in cond.values]
         keys = set(parts[0]) if parts else set()
         for p in parts[1:]:
             keys &= set(p)
@@ -93,6 +93,8 @@ def implied(cond: ast.AST, truth: bool, fold=None) -> Dict[str, Constraint]:
         return out
     if isinstance(cond, ast.Compare) and len(cond.ops) == 1:
         v = _subject(cond.left)
+        if v is None and alias and isinstance(cond.left, ast.Name) and cond.left.id in alias:
+            v = alias[cond.left.id]  # a local that holds <tok>.type
         op = cond.ops[0]
         rhs = cond.comparators[0]
         cs = _consts(rhs)
@@ -119,7 +121,7 @@ def implied(cond: ast.AST, truth: bool, fold=None) -> Dict[str, Constraint]:
 
 
 class TypeFacts:
-    def __init__(self, cfg: CFG, resolve=None, fold=None):
+    def __init__(self, cfg: CFG, resolve=None, fold=None, alias: Optional[Dict[str, str]] = None):
         """resolve(call) -> ('self'|'lex', name) or None, as ParserModel.resolve bound to the function"""
         self.cfg = cfg
         self.resolve = resolve
@@ -147,7 +149,7 @@ class TypeFacts:
         def edge(n: Node, lab, s: Node, f: Facts) -> Facts:
             if lab in ("T", "F") and n.cond is not None:
                 d = dict(f)
-                for k, c in implied(n.cond, lab == "T", fold).items():
+                for k, c in implied(n.cond, lab == "T", fold, alias).items():
                     d[k] = _meet(_get(d, k), c)
                     if d[k] == ("in", frozenset()):
                         return None  # this branch cannot be taken with what is known
